@@ -24,6 +24,16 @@
      window_of_stalled_request  a handler started (or was running) between bwin and bclose of
                               an overlapping inspection: the engine did not stay held until
                               the last inspection finished.
+     content_not_at_pause_point  the state the handlers write is versioned: `set ver` is logged by the handler
+                              whenever it rewrites it (event K writes a TRANSIENT version, parks at its gate,
+                              then writes the version it leaves behind).  A response whose content identifies a
+                              version (rsp .. ver; -1 = no version at all, a mixture) must show a version that
+                              was current at a PAUSE POINT inside the request (no handler executing: at the req
+                              record if none was running, or at an end record while the request was open) --
+                              never a transient version, never a version older than the request.
+   Endpoint classes of /api/field: field (plain), field_paged (slice_offset / slice_limit), field_missing (the
+   path does not exist: the 404 is the result of a walk over component state) are Reflective; field_badparams
+   (malformed paging parameters: the 400 follows from the parameter syntax alone) is not.
    (/api/progress is not in Reflective: the counters it reads are guarded by the bar's own
    mutex by design, so an overlap alone is not a conflict -- the race detector judges it.)
    Conflicts do not stop the validation: each is printed as a CASE (endpoint, class,
@@ -31,12 +41,12 @@
    log is rejected (REJECTED line).                                                *)
 EXTENDS Integers, FiniteSets, Sequences, TLC, TraceCommon
 CONSTANTS Reflective          \* endpoint classes whose access cannot be observed at a call
-VARIABLES running, open, bg, held, scn, l
-tvars == <<running, open, bg, held, scn, l>>
+VARIABLES running, open, bg, held, scn, ver, l
+tvars == <<running, open, bg, held, scn, ver, l>>
 Ev == Trace[l]
 None == [r |-> -1]
 
-TInit == running = {} /\ open = None /\ bg = None /\ held = FALSE /\ scn = 0 /\ l = 1 /\ TraceMarkInit
+TInit == running = {} /\ open = None /\ bg = None /\ held = FALSE /\ scn = 0 /\ ver = 0 /\ l = 1 /\ TraceMarkInit
 
 Class(h) == IF h THEN "relies_on_nonblocking_pause" ELSE "no_pause_at_all"
 ConflictS(ep, h, sym, how, what) ==
@@ -49,43 +59,49 @@ ConflictW(ep, sym) ==
     PrintT(<<"CASE", ToJson([endpoint |-> ep, class |-> IF held THEN "relies_on_nonblocking_pause" ELSE "pause_released_under_inspection",
                              symptom |-> sym, how |-> "window_of_stalled_request", what |-> "reflection", scn |-> scn, line |-> l])>>)
 
-TRun   == Ev.e = "run" /\ running = {} /\ UNCHANGED <<running, open, bg, held, scn>>
-TRet   == Ev.e = "ret" /\ running = {} /\ UNCHANGED <<running, open, bg, held, scn>>
+TRun   == Ev.e = "run" /\ running = {} /\ UNCHANGED <<running, open, bg, held, scn, ver>>
+TRet   == Ev.e = "ret" /\ running = {} /\ UNCHANGED <<running, open, bg, held, scn, ver>>
 TStart == /\ Ev.e = "start" /\ running = {}
           /\ running' = {Ev.id}
           /\ open' = (IF open = None THEN open ELSE [open EXCEPT !.cover = FALSE])
-          /\ UNCHANGED <<bg, held, scn>>
+          /\ UNCHANGED <<bg, held, scn, ver>>
           /\ InWindow => ConflictW(bg.ep, "handler_started_during_access")
 TEnd   == /\ Ev.e = "end" /\ running = {Ev.id}
           /\ running' = {}
-          /\ open' = (IF open = None THEN open ELSE [open EXCEPT !.cover = FALSE])
-          /\ UNCHANGED <<bg, held, scn>>
+          /\ open' = (IF open = None THEN open ELSE [open EXCEPT !.cover = FALSE, !.pp = @ \cup {ver}])
+          /\ UNCHANGED <<bg, held, scn, ver>>
+TSet   == /\ Ev.e = "set" /\ running # {}
+          /\ ver' = Ev.ver
+          /\ UNCHANGED <<running, open, bg, scn, held>>
 TReq   == /\ Ev.e = "req" /\ open = None
-          /\ open' = [r |-> Ev.r, ep |-> Ev.ep, cover |-> running # {}, paused |-> held]
-          /\ UNCHANGED <<running, bg, held, scn>>
+          /\ open' = [r |-> Ev.r, ep |-> Ev.ep, cover |-> running # {}, paused |-> held,
+                     pp |-> IF running = {} THEN {ver} ELSE {}]
+          /\ UNCHANGED <<running, bg, held, scn, ver>>
 TEPause == /\ Ev.e = "epause" /\ (open # None \/ bg # None)
            /\ held' = TRUE /\ open' = (IF open = None THEN open ELSE [open EXCEPT !.paused = TRUE])
-           /\ UNCHANGED <<running, bg, scn>>
+           /\ UNCHANGED <<running, bg, scn, ver>>
 TECont == /\ Ev.e = "econt" /\ (open # None \/ bg # None)
           /\ held' = FALSE
-          /\ UNCHANGED <<running, open, bg, scn>>
+          /\ UNCHANGED <<running, open, bg, scn, ver>>
 TAcc   == /\ Ev.e = "acc" /\ (open # None \/ bg # None)
-          /\ UNCHANGED <<running, open, bg, held, scn>>
+          /\ UNCHANGED <<running, open, bg, held, scn, ver>>
           /\ running # {} => Conflict(IF open # None THEN open.ep ELSE bg.ep, held, "observed_call", Ev.what)
 TRsp   == /\ Ev.e = "rsp" /\ open # None /\ open.r = Ev.r /\ open.ep = Ev.ep
           /\ open' = None
-          /\ UNCHANGED <<running, bg, held, scn>>
+          /\ UNCHANGED <<running, bg, held, scn, ver>>
           /\ (open.ep \in Reflective /\ open.cover /\ running # {}) =>
                  Conflict(open.ep, open.paused, "request_within_handler", "reflection")
-TBReq   == Ev.e = "breq" /\ bg = None /\ bg' = [r |-> Ev.r, ep |-> Ev.ep, win |-> FALSE] /\ UNCHANGED <<running, open, held, scn>>
+          /\ ("ver" \in DOMAIN Ev /\ Ev.ver \notin open.pp) =>
+                 ConflictS(open.ep, open.paused, "content_not_at_pause_point", "response_content", "reflection")
+TBReq   == Ev.e = "breq" /\ bg = None /\ bg' = [r |-> Ev.r, ep |-> Ev.ep, win |-> FALSE] /\ UNCHANGED <<running, open, held, scn, ver>>
 TBWin   == /\ Ev.e = "bwin" /\ bg # None /\ bg.r = Ev.r /\ ~bg.win
-           /\ bg' = [bg EXCEPT !.win = TRUE] /\ UNCHANGED <<running, open, held, scn>>
+           /\ bg' = [bg EXCEPT !.win = TRUE] /\ UNCHANGED <<running, open, held, scn, ver>>
            /\ running # {} => ConflictW(bg.ep, "access_while_handler_running")
-TBClose == Ev.e = "bclose" /\ bg # None /\ bg.r = Ev.r /\ bg.win /\ bg' = [bg EXCEPT !.win = FALSE] /\ UNCHANGED <<running, open, held, scn>>
-TBRsp   == Ev.e = "brsp" /\ bg # None /\ bg.r = Ev.r /\ ~bg.win /\ bg' = None /\ UNCHANGED <<running, open, held, scn>>
+TBClose == Ev.e = "bclose" /\ bg # None /\ bg.r = Ev.r /\ bg.win /\ bg' = [bg EXCEPT !.win = FALSE] /\ UNCHANGED <<running, open, held, scn, ver>>
+TBRsp   == Ev.e = "brsp" /\ bg # None /\ bg.r = Ev.r /\ ~bg.win /\ bg' = None /\ UNCHANGED <<running, open, held, scn, ver>>
 TReset == /\ Ev.e = "reset" /\ open = None /\ bg = None
-          /\ running' = {} /\ open' = None /\ bg' = None /\ held' = FALSE /\ scn' = Ev.scn
-TNext == l <= TraceLen /\ l' = l + 1 /\ (TRun \/ TRet \/ TStart \/ TEnd \/ TReq \/ TEPause \/ TECont \/ TAcc \/ TRsp \/ TBReq \/ TBWin \/ TBClose \/ TBRsp \/ TReset)
+          /\ running' = {} /\ open' = None /\ bg' = None /\ held' = FALSE /\ scn' = Ev.scn /\ ver' = 0
+TNext == l <= TraceLen /\ l' = l + 1 /\ (TRun \/ TRet \/ TStart \/ TEnd \/ TSet \/ TReq \/ TEPause \/ TECont \/ TAcc \/ TRsp \/ TBReq \/ TBWin \/ TBClose \/ TBRsp \/ TReset)
 TSpec == TInit /\ [][TNext]_tvars
 Mark == TraceMark(l)
 OneHandler == Cardinality(running) <= 1
